@@ -368,6 +368,11 @@ func (x *run) checkC11Deps() *Failure {
 	// handedOver: some operation that contains the invocation had returned before seq
 	handedOver := func(inv *kit.Inv, seq int64) bool {
 		for _, o := range x.R.Obs {
+			// the operation that ran the constructor (same goroutine), not one of another thread
+			// whose time span merely covers it
+			if o.Goid != 0 && o.Goid != inv.Goid {
+				continue
+			}
 			if o.StartSeq <= inv.StartSeq && o.EndSeq >= inv.EndSeq && o.EndSeq != 0 && o.EndSeq < seq {
 				return true
 			}
